@@ -38,6 +38,7 @@ sh(f"git -C {repo} checkout -q -- . ; git -C {repo} checkout -q --detach $(git -
 readme = open(f"{cdir}/README.md").read() if os.path.exists(f"{cdir}/README.md") else ""
 m = re.search(r"place(?:d)? (?:it )?(?:at|under|in) `([^`]+)`", readme)
 place = m.group(1) if m else None
+if place: place = re.sub(r"^/tmp/seed_[A-Za-z0-9]+/", "", place)
 cm = re.search(r"(cargo test[^\n`]*--test demo[^\n`]*)", readme)
 cmd = cm.group(1).strip() if cm else None
 if not place and cmd:
